@@ -11,7 +11,8 @@ DRIVER = 'harness/impl/c15_driver.py'
 
 COMPONENTS = {
     60: 'history: data setter', 61: 'history: asmatrix', 62: 'history: dot', 63: 'history: nonzero',
-    64: 'history: transpose().nonzero', 65: 'history: reorder().asmatrix',
+    64: 'history: transpose().nonzero', 65: 'history: reorder().asmatrix', 66: 'history: reorder().dot',
+    14: 'ReorderedTensorGenerator',
     1: 'shape', 2: 'nonzero', 3: 'nonzero(lower_tri)', 4: 'transpose().nonzero', 5: 'nonzeros_for_rows',
     6: 'nonzeros_for_columns', 7: 'dot', 8: 'asmatrix', 9: 'reorder().asmatrix', 10: 'reorder().nonzero',
     11: 'MLMatrix(matrix=)', 12: 'get_transpose_idx_for_bidx', 13: 'sequential_bidx',
@@ -155,7 +156,7 @@ def gen_ml_case(rng, L=None, maxnnz=400, stream='valid'):
 def gen_hist_case(rng):
     """queries, reassignment of the data tensor (or rebuild from a matrix), queries again, on one object"""
     while True:
-        base = gen_ml_case(rng, L=rng.choice([1, 2, 3, 4, 4, 4, 5, 5, 6, 6]), maxnnz=120)
+        base = gen_ml_case(rng, L=rng.choice([1, 1, 2, 2, 2, 3, 3, 3, 4, 4, 5, 6]), maxnnz=120)
         if prod(len(p) for p in base['bidx']) >= 1:
             break
     bs, bidx = base['bs'], base['bidx']
@@ -166,12 +167,33 @@ def gen_hist_case(rng):
     def rdata():
         return [rng.randint(-3, 3) or 1 for _ in range(nnz)]
 
+    def rx():
+        return [rng.randint(-3, 3) for _ in range(N)]
+
+    def product_query():
+        # products whose results are KEPT and read again at the end of the history
+        kinds = ['dot', 'dot', 'dot', 'at', 'matvec', 'matmat', 'matmat2', 'sum', 'reodot']
+        if M == N:
+            kinds += ['dotdot', 'opprod']
+        k = rng.choice(kinds)
+        st = {'op': k, 'x': rx()}
+        if k in ('matmat2', 'sum'):
+            st['x2'] = rx()
+        if k == 'matmat2':
+            st['layout'] = rng.choice(['C', 'F']) if MULTICOLUMN_C_ORDER else 'F'
+        if k == 'reodot':
+            axes = list(range(L))
+            rng.shuffle(axes)
+            st['axes'] = axes
+            st['x'] = [rng.randint(-3, 3) for _ in range(N)]
+        return st
+
     def query():
-        k = rng.choice(['asmatrix', 'asmatrix', 'dot', 'dot', 'matmat', 'nonzero', 'transpose_nz', 'reorder'])
+        k = rng.choice(['asmatrix', 'asmatrix', 'product', 'product', 'product', 'nonzero', 'transpose_nz', 'reorder'])
         if k == 'asmatrix':
             return {'op': 'asmatrix', 'format': rng.choice(['csr', 'csc', 'coo'])}
-        if k in ('dot', 'matmat'):
-            return {'op': k, 'x': [rng.randint(-3, 3) for _ in range(N)]}
+        if k == 'product':
+            return product_query()
         if k == 'nonzero':
             return {'op': 'nonzero', 'lt': rng.random() < 0.4}
         if k == 'transpose_nz':
@@ -179,7 +201,7 @@ def gen_hist_case(rng):
         axes = list(range(L))
         rng.shuffle(axes)
         return {'op': 'reorder', 'axes': axes}
-    steps = []
+    steps = [product_query() for _ in range(rng.randint(2, 3))]      # several products on the same object first
     for rnd in range(rng.randint(2, 4)):
         steps += [query() for _ in range(rng.randint(1, 3))]
         r = rng.random()
@@ -190,6 +212,7 @@ def gen_hist_case(rng):
         else:
             steps.append({'op': 'from_matrix', 'matrix': [rng.randint(-4, 4) for _ in range(M * N)], 'sparse': rng.random() < 0.5})
     steps += [query() for _ in range(rng.randint(2, 4))]
+    steps += [product_query() for _ in range(rng.randint(2, 3))]
     return {'kind': 'hist', 'bs': bs, 'bidx': bidx, 'data': rdata(), 'layout': rng.choice(['C', 'F']), 'steps': steps}
 
 
@@ -315,6 +338,63 @@ def trips(ts):
     return '[' + ';'.join('(%s,%s)' % (zp(i, j), str(v) if v >= 0 else '(%d)' % v) for i, j, v in ts) + ']'
 
 
+# Two defects found in the deepening round are reported to the coordinator with patches but are NOT yet part of
+# known_findings.json / fixed in /repo; until then the inputs that hit them are kept out of the tie on a tree where
+# the driver's probe shows the unrepaired behaviour (set both to True once the patches are in):
+#  fixes/C15-sequential-bidx-rectangular.patch  (sequential_bidx / ReorderedTensorGenerator on rectangular blocks)
+#  fixes/C15-matvec-noncontiguous-column.patch  (M.dot(X) with a C-ordered N x k array, k >= 2, for 2 and 3 levels)
+COMPARE_RECT_SEQ_BIDX_ALWAYS = False
+MULTICOLUMN_C_ORDER = False
+
+PRODUCT_OPS = ('dot', 'matmat', 'at', 'matvec', 'matmat2', 'sum', 'dotdot', 'opprod', 'reodot')
+
+
+def product_columns(c, st, cur):
+    """[(structure axes or None, argument vector)] : the columns the product denotes, by the dense oracle"""
+    bs, bidx = c['bs'], c['bidx']
+    M = prod(b[0] for b in bs)
+    op = st['op']
+    if op == 'matmat2':
+        return [(None, st['x']), (None, st['x2'])]
+    if op == 'sum':
+        return [(None, [a + b for a, b in zip(st['x'], st['x2'])])]
+    if op in ('dotdot', 'opprod'):
+        _, _, A = oracle.dense_from_data(bs, bidx, cur)
+        return [(None, oracle.matvec(M, A, st['x']))]
+    if op == 'reodot':
+        return [(st['axes'], st['x'])]
+    return [(None, st['x'])]
+
+
+def hist_product_records(c, st, o):
+    """Coq records of one product step: the model's matvec against the value read at the END of the history"""
+    cols = product_columns(c, st, o['_cur'])
+    out = o['out']
+    recs = []
+    for n, (axes, x) in enumerate(cols):
+        val = out[n] if isinstance(out, list) and n < len(out) else {'error': 'missing'}
+        if axes is None:
+            recs.append('HDot %s %s' % (zl(x), opt(val, zl)))
+        else:
+            recs.append('HReoDot %s %s %s' % ('[' + ';'.join('%d%%nat' % a for a in axes) + ']', zl(x), opt(val, zl)))
+    return recs
+
+
+def annotate_hist(c, r):
+    """store with every step's record the data tensor that is current at that step"""
+    if is_err(r) or 'steps' not in r:
+        return
+    N = prod(b[1] for b in c['bs'])
+    pos = oracle.kron_positions(c['bs'], c['bidx'])
+    cur = list(c['data'])
+    for st, o in zip(c['steps'], r['steps']):
+        if st['op'] == 'set' and o.get('accepted') and not st.get('bad'):
+            cur = list(st['data'])
+        elif st['op'] == 'from_matrix' and isinstance(o.get('data'), list):
+            cur = [st['matrix'][i * N + j] for (i, j) in pos]
+        o['_cur'] = cur
+
+
 def coq_case(c, r):
     k = c['kind']
     if k == 'ml':
@@ -327,7 +407,7 @@ def coq_case(c, r):
         skipped = is_err(r['dot']) and r['dot']['error'] == 'Skipped'
         asm = r['asm']['triples'] if not is_err(r['asm']) else [[0, 0, 0]]     # an impossible canonical triple
         reo = r['reo']['triples'] if not is_err(r['reo']) else [[0, 0, 0]]
-        return ('CML (MkML %s %s %s %s %s %s %s %s %s %s %s %s %s %s %s %s %s %s %s %s %s %s)' % (
+        return ('CML (MkML %s %s %s %s %s %s %s %s %s %s %s %s %s %s %s %s %s %s %s %s %s %s %s)' % (
             pl(c['bs']), clist([pl(p) for p in c['bidx']]), zl(c['data']), zl(c['x']),
             zl(c['rows']), zl(c['cols']), '[' + ';'.join('%d%%nat' % a for a in c['axes']) + ']', mat,
             cbool(skipped),
@@ -335,7 +415,8 @@ def coq_case(c, r):
             opt(r['nz_T'], lambda v: pl(pairs2(v))), rows_s, opt(r['cols'], lambda v: pl(pairs2(v))),
             opt(r['dot'], zl), trips(asm), trips(reo), opt(r['reo_nz'], lambda v: pl(pairs2(v))),
             opt(r.get('dfm'), zl), clist([opt(t, zl) for t in r['tidx']]),
-            clist([zl(v) for v in r['seqb']]) if not is_err(r['seqb']) else '[]'))
+            'None' if r.get('seqb_skipped') else ('(Some %s)' % (clist([zl(v) for v in r['seqb']]) if not is_err(r['seqb']) else '[[-1]]')),
+            opt(r.get('rtg'), pl)))
     if k == 'hist':
         N = prod(b[1] for b in c['bs'])
         hs = []
@@ -347,8 +428,8 @@ def coq_case(c, r):
                 hs.append('HFromMat %s' % clist([zl(st['matrix'][i * N:(i + 1) * N]) for i in range(len(st['matrix']) // N)]))
             elif op == 'asmatrix':
                 hs.append('HAsm %s' % trips(o['out']['triples'] if not is_err(o['out']) else [[0, 0, 0]]))
-            elif op in ('dot', 'matmat'):
-                hs.append('HDot %s %s' % (zl(st['x']), opt(o['out'], zl)))
+            elif op in PRODUCT_OPS:
+                hs += hist_product_records(c, st, o)
             elif op == 'nonzero':
                 hs.append('HNz %s %s' % (cbool(st['lt']), opt(o['out'], lambda v: pl(pairs2(v)))))
             elif op == 'transpose_nz':
@@ -409,7 +490,17 @@ def property_failures(c, r):
         return [('driver-raises:' + c['kind'], 'the case could not be run: %s' % r)]
     k = c['kind']
     if k == 'ml':
-        return oracle.check_ml(c, r)
+        bad = oracle.check_ml(c, r)
+        if 'rtg' in r:
+            rect = any(b[0] != b[1] for b in c['bs'])
+            if is_err(r['rtg']):
+                bad.append(('tensor-generator-raises', 'ReorderedTensorGenerator raised %s' % (r['rtg'],)))
+            elif not is_err(r['nz']) and [tuple(e) for e in r['rtg']] != pairs2(r['nz']):
+                bad.append(('sequential-bidx:' + ('rectangular' if rect else 'square'),
+                            'ReorderedTensorGenerator(structure bs=%s) asks the assembler for positions %s.. but the data tensor '
+                            'holds the entries at nonzero() = %s.. (sequential_bidx = %s)' % (
+                                c['bs'], str(r['rtg'])[:80], str(pairs2(r['nz']))[:80], str(r.get('seqb'))[:80])))
+        return bad
     bad = []
     if k == 'hist':
         return hist_failures(c, r)
@@ -505,9 +596,40 @@ def hist_failures(c, r):
         if op == 'asmatrix':
             ok = not is_err(out) and out['shape'] == [M, N] and out['triples'] == oracle.triples(A)
             slug = 'history:asmatrix'
-        elif op in ('dot', 'matmat'):
-            ok = out == oracle.matvec(M, A, st['x'])
-            slug = 'history:%s-L%s' % (op, L if L in (2, 3) else 'asmatrix-path')
+        elif op in PRODUCT_OPS:
+            exp = []
+            for axes, x in product_columns(c, st, cur):
+                if axes is None:
+                    exp.append(oracle.matvec(M, A, x))
+                else:
+                    rd, cd = [b[0] for b in bs], [b[1] for b in bs]
+                    Ar = {}
+                    for (i, j), v in A.items():
+                        Ii, Jj = oracle.unravel(i, rd), oracle.unravel(j, cd)
+                        Ar[(oracle.ravel([Ii[a] for a in axes], [rd[a] for a in axes]),
+                            oracle.ravel([Jj[a] for a in axes], [cd[a] for a in axes]))] = v
+                    exp.append(oracle.matvec(M, Ar, x))
+            lvl = 'L%s' % (L if L in (2, 3) else 'asmatrix-path')
+            hist = [s_['op'] for s_ in c['steps'][:n + 1]]
+            if o.get('immediate') != exp:
+                bad.append(('history:%s-%s' % (op, lvl) + (':after-reassignment' if nset else ''),
+                            '%s: the product does not equal the dense Kronecker matrix times the argument: got %s expected %s' % (
+                                where, str(o.get('immediate'))[:120], str(exp)[:120])))
+                break
+            if out != exp:
+                bad.append(('history:product-result-changed-later:%s' % lvl,
+                            '%s: the result was correct when returned (%s) but reads %s at the end of the history %s: '
+                            'a later operation on the same object overwrote it' % (where, str(exp)[:100], str(out)[:100], [s_['op'] for s_ in c['steps']])))
+                break
+            if o.get('aliases'):
+                bad.append(('history:product-result-aliased:%s' % lvl,
+                            '%s: the returned array shares memory with %s (history so far: %s)' % (where, sorted(set(o['aliases'])), hist)))
+                break
+            if not o.get('fresh_same') or not o.get('late_same_as_fresh', True):
+                bad.append(('history:product:differs-from-fresh-object:%s' % lvl,
+                            '%s: the same product on a freshly constructed MLMatrix gives %s' % (where, str(o.get('fresh'))[:120])))
+                break
+            continue
         elif op == 'nonzero':
             ok = not is_err(out) and pairs2(out) == [p for p in pos if (not st['lt']) or p[1] <= p[0]]
             slug = 'history:nonzero'
@@ -549,7 +671,7 @@ def run_impl(ctx, cases, batch=250):
     batches = [cases[i:i + batch] for i in range(0, len(cases), batch)]
 
     def one(b):
-        return ctx.impl.run(DRIVER, {'cases': b}, timeout=3000)
+        return ctx.impl.run(DRIVER, {'cases': b, 'skip_rect_seq_when_unrepaired': not COMPARE_RECT_SEQ_BIDX_ALWAYS}, timeout=3000)
     ctx.impl.build()
     with ThreadPoolExecutor(max_workers=min(12, NCPU)) as ex:
         outs = list(ex.map(one, batches))
@@ -649,6 +771,7 @@ def sweeps(ctx):
 
 def run(ctx):
     ctx.obligations_stage(PROPS, extra_targets=['C15/Examples.vo', 'C15/Check.vo'])
+    ctx.obligations_stage('C15/Props2.v', extra_targets=['C15/Examples2.vo'])
     ctx.assumptions += [
         'model: hand transcription of mlmatrix.py / mlmatrix_cy.pyx / utils.kron_partial into Gallina (coq/C15/Model.v); '
         'integer data stands for the float data tensors (the tie uses integer-valued floats, exact in binary64)',
@@ -719,6 +842,14 @@ def run(ctx):
     t0 = time.time()
     results, probe = run_impl(ctx, cases)
     log('[C15] implementation run: %.1fs' % (time.time() - t0))
+    if not probe.get('seq_fixed', True):
+        log('[C15] PENDING DEFECT (not reported as violation, see COMPARE_RECT_SEQ_BIDX_ALWAYS): sequential_bidx numbers a 2x3 block '
+            'm*i+j = [0,1,2,2,3,4]; ReorderedTensorGenerator asks for wrong positions on rectangular blocks; '
+            'sequential_bidx / tensor-generator comparisons run on square-block structures only')
+        ctx.cov['pending_defect_sequential_bidx_rectangular'] = True
+    for c, r in zip(cases, results):
+        if c['kind'] == 'hist':
+            annotate_hist(c, r)
     if not probe.get('rect_ok', True):
         ctx.report('impl:matvec-rect-L2', 'MLMatrix.dot with rectangular blocks ((2,3),(2,2)), data=arange(24).reshape(6,4), '
                    'x=ones(6): got %s, the dense product is [27, 39, 99, 111]' % (probe.get('out'),),
@@ -793,6 +924,8 @@ def replay(ctx, obj):
     c = rep['case']
     results, probe = run_impl(ctx, [c])
     r = results[0]
+    if c['kind'] == 'hist':
+        annotate_hist(c, r)
     bad = property_failures(c, r)
     log('[C15] replay: impl output %s' % (json.dumps(r)[:2000],))
     if bad:
